@@ -137,8 +137,20 @@ def harnesses(ctx) -> List[H]:
     # model classes inside elements
     hs.append(mk("c18_with_class", "n: int, r: bool", [],
                  "return with_class_ok(n, r)", timeout=60, group="text", expect="unknown"))
+    hs.append(mk("c18_shared_wrapper", "r: bool, same_name: bool", [], "return shared_wrapper_ok(r, 3, same_name)", timeout=60, group="property",
+                 covers="one Property wrapper used by two owners under different / equal names"))
     hs.append(mk("c18__reach", "f1: bool, n: int", [], "return not (f1 and args_ok(Integer(minimum=n)))", kind="witness", timeout=20))
     return hs
+
+
+def shared_wrapper_ok(r, n, same_name):
+    """one Property wrapper placed in two owners (under different or equal names): both owners' reprs rebuild them"""
+    from vf.common import Element, Property, String
+
+    p = Property(String(minLength=n), required=r)
+    a = Element(properties={"name": p})
+    b = Element(properties={("name" if same_name else "title"): p}, maxProperties=n)
+    return text_ok(a) and text_ok(b) and args_ok(a) and args_ok(b)
 
 
 def text_ok_prop(p):
